@@ -358,7 +358,14 @@ def check(case):
                                                 mod_.register_source(M.Excitation(s_['mag'], s_['phase_deg']), s_['pulse'] - 1)
                                             for l_ in d['loads']:
                                                 mod_.register_load(M.Impedance_Load(l_['z']) if 'z' in l_ else M.Laplace_Load(a=l_['a'], b=l_['b']), l_['pulse'] - 1)
-                                        mod_.pulses._matrix_geo_unconnected = physical_unconnected(tp_)
+                                        # (a tapered wire, arc or helix is written as a chain of one-segment wires: the
+                                        # chain has more 'wires' than the object it emulates, so the connectivity
+                                        # of the ORIGINAL description is used for both; the pulses correspond
+                                        # one to one - checked above)
+                                        pu = physical_unconnected(topo)
+                                        if pu.shape[0] != len(mod_.pulses):
+                                            pu = physical_unconnected(tp_)
+                                        mod_.pulses._matrix_geo_unconnected = pu
                                         mod_.compute()
                                         zs.append([x.impedance for x in mod_.sources])
                                     if all(abs(x - y) <= tol * abs(x) for x, y in zip(*zs)):
